@@ -362,6 +362,13 @@ func runC03(c *mon.Ctx) {
 						ps3.Unsigned = []byte("{\"transaction_id\":\"\xff\"}")
 					case 1:
 						ps3.Content = []byte("{\"body\":\"a\xffb\",\"bo\xc3dy\":1}")
+						if vr.Chance(0.5) {
+							// (the escape of half a surrogate pair is no character either: dropped from the canonical form)
+							ps3.Content = []byte(gen.Pick(vr, []string{`{"body":"a\udead"}`, `{"bo\ud800dy":1}`, `{"body":["\udc00\ud800"]}`}))
+							if vr.Chance(0.5) {
+								ps3.Content, ps3.Unsigned = ps.Content, []byte(`{"transaction_id":"t\udfff"}`)
+							}
+						}
 					default:
 						ps3.Unsigned = []byte(gen.Pick(vr, []string{`{"age":1,"age":2}`, `{"a":{"b":1,"b":2}}`, `{"prev_content":{"x":1},"prev_content":{"x":2}}`}))
 					}
